@@ -57,7 +57,7 @@ CLAIMS["C11"] = {
     "text": "Decides fault locality and list hygiene structurally: on the uncaught-error path error_handler switches off exactly current_heart_beat and clears it before jumping, nothing else writes that variable, the only exits that skip the switch-off are the catch path and the in_error exit, "
             "call_heart_beat publishes the object before calling it and clears it before reset/call_out run; destruct_object removes the heart beat before marking the object destructed; "
             "every heart_beats[] subscript except the round-robin cursor is bounded by the list length and the growth site grows. "
-            "'Exactly once every n ticks' under enable/disable histories (index compensation) is not decided; the cursor subscript is reported as undecided. The O_HEART_BEAT bit is written only inside set_heart_beat() on the path that changed the table.",
+            "'Exactly once every n ticks' under enable/disable histories (index compensation) is not decided; the cursor subscript is reported as undecided. The O_HEART_BEAT bit is written only inside set_heart_beat() on the path that changed the table. A heart-beat round in code re-entered after the backend's recovery point runs under a once-flag set before the call (C11-g).",
     "design_ref": "DESIGN.md §5 C11",
 }
 
@@ -105,7 +105,7 @@ CLAIMS["C07"] = {
     "technique": "static analysis: guard dominance of function_visible over both dispatch sites of apply_low, provenance of the flags operand, constant-mask check, hit/miss sibling agreement on the apply cache (negative entries only under lookup==NULL, field-set agreement), who-may-write, forward dataflow from every store to the global call_origin to its consuming apply_low, context-sensitive provenance of every function_flags read that reaches a FUNCTION_FLAGS store in the compiler's inherit handling, path completeness of the per-compilation identifier clean-up",
     "text": "Decides the visibility and cache mechanism structurally: no path of apply_low reaches the interpreter without function_visible(origin, flags of the object's own program) being true, call_other is refused for static/private/protected and nothing else is refused; "
             "the cache's hit test compares id, program and name, a negative entry is stored only when the lookup found nothing (so an earlier refused call cannot change a later verdict), and the hit path reads only fields the miss path writes. "
-            "The origin handed over through the global call_origin is consumed by the next apply_low with no LPC-running call and no function exit in between (otherwise a load or a skipped element changes how the next call is classified). Entering an inherited program adds the inherit entry's offsets (pairs), alias slots get the aliased function's flags, and the flags of an inherited slot are read from the program named in the inherit statement at its own slot (not from the defining program, which lacks the modifiers of intermediate `static inherit` levels). Most-derived resolution order (find_function) is not decided. The binding of a permanent identifier to a function of the program being compiled is reset at the end of every compilation on every path, so a name resolves the same way whatever was compiled before.",
+            "The origin handed over through the global call_origin is consumed by the next apply_low with no LPC-running call and no function exit in between (otherwise a load or a skipped element changes how the next call is classified). Entering an inherited program adds the inherit entry's offsets (pairs), alias slots get the aliased function's flags, and the flags of an inherited slot are read from the program named in the inherit statement at its own slot (not from the defining program, which lacks the modifiers of intermediate `static inherit` levels). Most-derived resolution order (find_function) is not decided. The binding of a permanent identifier to a function of the program being compiled is reset at the end of every compilation on every path, so a name resolves the same way whatever was compiled before. The program of an existing object is re-pointed only under a test that no function pointer indexes into the old one (C07-i).",
     "design_ref": "DESIGN.md §5 C07",
 }
 
@@ -146,7 +146,7 @@ CLAIMS["C02"] = {
     "technique": "static analysis: growth-site rule over every realloc in the compiler units, per-iteration weighted longest-path in budgeted lexer copy loops, must-pass-through of state release in epilog, call-graph reachability of fatal() from compile_file (context-sensitive for comparator arguments), representation-invariant rule on the locals table, reset-completeness of lexer statics (post-dominating resets, drain loops, constant propagation to every return), dominance of an index test inside the loop for growing-index stores (with extent arithmetic where the array has a declared size), report-then-copy reachability for size tests that only call lexerror/yyerror, constant-truth check of assignment conditions, guard dominance excluding -1 for signed division of source-text values, lock-step index-space check of rebased frame pointers, units-of-measure propagation (bytes vs element index) over the memory blocks, per-entry count pairing in the locals table, stale-pointer typestate for pointers into a memory block across calls that can grow it (growth summaries over the call graph), reset-completeness scan of the compiler's file-scope state against a reviewed table, path completeness of the identifier clean-up",
     "text": "Decides structural necessary conditions of compiler safety and reusability for all source texts: every table reallocation really grows (or is an exact fit); lexer copy loops that spend a space budget never store more bytes than they charge and SAVEC stores are bounded; "
             "epilog releases lexer, scratchpad and locals on every return; errors are counted and block object creation; fatal() is reachable from compilation only via reviewed internal-inconsistency sites; "
-            "whoever drops a local's sem_value removes it from the live range. every lexer static written while yylex runs is reset per compilation, is a pure statistic, or is provably back at its initial value at each return of its only writer (two flags that leaked into the next file were found and fixed). The stuck re-entrancy flag after an escaping error is a recorded finding. Termination and full equality of the produced program with a fresh driver's (compiler-side state beyond the lexer) are not decided. Also decided for the lexer/preprocessor: an index that grows with the input is compared with a bound on every way into its store (and the bound fits the array's extent), a size test that only reports does not fall through into the copy it guards, no condition is an assignment of never-null pointer arithmetic, and #if arithmetic and constant folding never divide a signed value by a source-chosen -1 (INT_MIN / -1 traps; found in the folding code, replayed and fixed). Every entry of the locals table owns one count of its identifier (a redeclared local took an efun's name away for all later compiles: found, replayed, fixed) and indexed pops stay inside the function's part of the table; byte counts and element indexes of the memory blocks are never mixed; a pointer into a table is not used after a call that may reallocate the table; every static of the compiler proper that a compilation writes is reset per compilation or is on the reviewed list with its reason (two real leaks found this way and fixed); free_unused_identifiers() resets its state on every path.",
+            "whoever drops a local's sem_value removes it from the live range. every lexer static written while yylex runs is reset per compilation, is a pure statistic, or is provably back at its initial value at each return of its only writer (two flags that leaked into the next file were found and fixed). The stuck re-entrancy flag after an escaping error is a recorded finding. Termination and full equality of the produced program with a fresh driver's (compiler-side state beyond the lexer) are not decided. Also decided for the lexer/preprocessor: an index that grows with the input is compared with a bound on every way into its store (and the bound fits the array's extent), a size test that only reports does not fall through into the copy it guards, no condition is an assignment of never-null pointer arithmetic, and #if arithmetic and constant folding never divide a signed value by a source-chosen -1 (INT_MIN / -1 traps; found in the folding code, replayed and fixed). Every entry of the locals table owns one count of its identifier (a redeclared local took an efun's name away for all later compiles: found, replayed, fixed) and indexed pops stay inside the function's part of the table; byte counts and element indexes of the memory blocks are never mixed; a pointer into a table is not used after a call that may reallocate the table; every static of the compiler proper that a compilation writes is reset per compilation or is on the reviewed list with its reason (two real leaks found this way and fixed); free_unused_identifiers() resets its state on every path. Predefined macros are not changed by a compilation: entries are hidden or overwritten only where tested not to be predefined (C02-r).",
     "design_ref": "DESIGN.md §5 C02",
 }
 
